@@ -67,8 +67,8 @@ class Traced:
         (numeric mode).  Returns number of compared output elements; raises on mismatch."""
         n = 0
         for args in arg_sets:
-            real = self.fn(*args)
             flat = [l for l in jax.tree_util.tree_leaves(args)]
+            real = self.fn(*fresh_copy(args))  # nnx states are mutated in place by update routines
             ctx = Ctx(numeric=True)
             outs = Interp(ctx).eval_closed(self.closed, *flat)
             real_leaves = jax.tree_util.tree_leaves(real)
@@ -86,6 +86,11 @@ class Traced:
                     raise AssertionError(f"interpreter/real mismatch in {self.name}: got {got}, real {r}")
                 n += r.size
         return n
+
+
+def fresh_copy(tree):
+    leaves, td = jax.tree_util.tree_flatten(tree)
+    return jax.tree_util.tree_unflatten(td, [jnp.array(l, copy=True) if isinstance(l, jax.Array) and not _is_key_dtype(l.dtype) else l for l in leaves])
 
 
 def _to_float(x):
